@@ -32,6 +32,8 @@ type spec struct {
 	InnerPrefix, InnerMid, InnerSuffix           string
 	InnerDepth                                   int
 	HasInner                                     bool
+	Flat                                         string
+	FlatN                                        int
 }
 
 func main() {
@@ -46,7 +48,7 @@ func main() {
 	if c.HasInner {
 		mid = strings.Repeat(c.InnerPrefix, c.InnerDepth) + c.InnerMid + strings.Repeat(c.InnerSuffix, c.InnerDepth)
 	}
-	src := c.Head + strings.Repeat(c.Prefix, c.Depth) + mid + strings.Repeat(c.Suffix, c.Depth) + c.Tail
+	src := strings.Repeat(c.Flat, c.FlatN) + c.Head + strings.Repeat(c.Prefix, c.Depth) + mid + strings.Repeat(c.Suffix, c.Depth) + c.Tail
 	budget := 4*len(src) + 16
 	calls := 0
 	switch entry {
